@@ -1,7 +1,7 @@
 (* C19 - Server shutdown is graceful: in-flight requests complete.
    Only theorem statements, each closed by an exact lemma, and Print Assumptions. *)
 Require Import Verif.Common.Base.
-Require Import Verif.Model.C19 Verif.Spec.C19 Verif.Proof.C19_a Verif.Proof.C19 Verif.Proof.C19_b Verif.Proof.C19_c.
+Require Import Verif.Model.C19 Verif.Spec.C19 Verif.Proof.C19_a Verif.Proof.C19 Verif.Proof.C19_b Verif.Proof.C19_c Verif.Proof.C19_d.
 
 (* the trace monitor run on the observed traces decides exactly the property *)
 Theorem C19_monitor_correct : forall t, graceful_b t = true <-> graceful t.
@@ -139,6 +139,60 @@ Theorem C19_return_stays_enabled : forall s x, runner s = RShutRet x ->
 Proof. exact return_stays_enabled. Qed.
 Print Assumptions C19_return_stays_enabled.
 
+(* ---- connections that take the h2c upgrade (recorded finding use-h2c-upgraded-connection-not-drained) ----
+   The extended system (Model: xstep) runs the base system next to the requests whose connection was
+   hijacked by the h2c handler; Shutdown's quiescence test does not see them. *)
+
+(* the finding, with its witness history: use_h2c on, one request on an upgraded connection in flight
+   at the cancellation - the run is complete, its observable trace is exactly the recorded history, and
+   it violates "the runner returns only after those requests have finished" *)
+Theorem C19_h2c_upgrade_refuted :
+  exists s, xrun true xinit h2c_witness = Some s /\ final (xb s) /\
+            xtrace h2c_witness = [Accept 0; Cancel; RunnerReturn VNil; HandlerDone 0; ClientGot 0 true; Refused] /\
+            ~ G1 (xtrace h2c_witness) /\ ~ graceful (xtrace h2c_witness).
+Proof. exact h2c_upgrade_refuted. Qed.
+Print Assumptions C19_h2c_upgrade_refuted.
+
+(* the property for every schedule without upgraded connections, use_h2c on or off *)
+Theorem C19_no_upgrade_graceful : forall h xs s,
+  xrun h xinit xs = Some s -> forallb is_base xs = true -> final (xb s) -> graceful (xtrace xs).
+Proof. exact no_upgrade_graceful. Qed.
+Print Assumptions C19_no_upgrade_graceful.
+
+(* with use_h2c off (the default) the offer is ignored, nothing is hijacked: every schedule *)
+Theorem C19_h2c_off_graceful : forall xs s,
+  xrun false xinit xs = Some s -> final (xb s) -> graceful (xtrace xs).
+Proof. exact h2c_off_graceful. Qed.
+Print Assumptions C19_h2c_off_graceful.
+
+(* even with upgraded connections around, the requests that did not take the upgrade keep the whole
+   property: the base part of every extended run is graceful *)
+Theorem C19_non_upgraded_requests_graceful : forall h xs s,
+  xrun h xinit xs = Some s -> final (xb s) -> graceful (filter observable (unbase xs)).
+Proof. exact base_part_graceful. Qed.
+Print Assumptions C19_non_upgraded_requests_graceful.
+
+(* oracle <-> extended model, for the case kinds without upgraded requests *)
+Theorem C19_ext_model_meets_oracle : forall h xs s,
+  xrun h xinit xs = Some s -> forallb is_base xs = true -> final (xb s) -> graceful_b (xtrace xs) = true.
+Proof. exact ext_model_meets_oracle. Qed.
+Print Assumptions C19_ext_model_meets_oracle.
+
+(* the inclusion check used on the observed traces of the finding (upgraded requests named) is sound *)
+Theorem C19_upgraded_inclusion_sound : forall ups t, xaccepts_b ups t = true ->
+  exists xs s, xrun true xinit xs = Some s /\ final (xb s) /\ xtrace xs = t.
+Proof. exact xaccepts_sound. Qed.
+Print Assumptions C19_upgraded_inclusion_sound.
+
+(* server timeouts (read, read-header, idle) close connections: in the model that is Drop, which is
+   enabled only for a connection whose request has not started and touches neither a running or
+   finished request nor the runner or the listener *)
+Theorem C19_timeout_close_spares_inflight : forall s r s', step s (Drop r) = Some s' ->
+  getq r (reqs s) = Some QConn /\ lis s' = lis s /\ canc s' = canc s /\ runner s' = runner s /\
+  forall r', started (getq r' (reqs s)) -> getq r' (reqs s') = getq r' (reqs s).
+Proof. exact drop_spares_started. Qed.
+Print Assumptions C19_timeout_close_spares_inflight.
+
 (* ---- non-vacuity ---- *)
 (* a complete run with three requests in flight at the cancellation, one finished before, one
    late arrival that is still served, one attempt refused *)
@@ -174,3 +228,9 @@ Proof. vm_compute. repeat split; reflexivity. Qed.
 Example C19_ex_model_blocks_early_return :
   run init [ListenOk; Conn 0; Accept 0; Cancel; ShutdownCall; ShutdownReturn false] = None.
 Proof. vm_compute. reflexivity. Qed.
+
+(* the history the harness observes of the finding is a trace of the extended system, not of the base one *)
+Example C19_ex_finding_history :
+  xaccepts_b [0] [Accept 0; Cancel; RunnerReturn VNil; HandlerDone 0; Refused; ClientGot 0 true; Refused] = true /\
+  accepts_b [Accept 0; Cancel; RunnerReturn VNil; HandlerDone 0; Refused; ClientGot 0 true; Refused] = false.
+Proof. vm_compute. split; reflexivity. Qed.
